@@ -22,8 +22,9 @@ Clauses of the property and where they are:
 * outside refused ....................... `outside_rejected`, `outside_value_error`
 * too short refused ..................... `too_short_rejected`, `too_short_value_error`
 * frame / form kept ..................... `result_keeps_frame_form`, `result_keeps_frame_form_after_convert`,
-  `interpolate_uses_current_coordinates_partial` (the coordinates match the labels only on an ephemeris that
-  was not interpolated before its frame/form was changed — see Witness/C09.lean for the counter-witness)
+  `interpolate_uses_current_coordinates` (for every history of interpolations and frame/form changes the
+  coordinates are interpolated from the current points; this was false before /repo commit 0a4f7b2, see
+  Witness/C09.lean for the history)
 * "within centimetres on a smooth orbit" is an error bound for a function class: oracle only.
 -/
 namespace BeyondVerif.C09
@@ -446,13 +447,49 @@ theorem result_keeps_frame_form_after_convert (e : Eph) (conv : Pt → Pt) (d1 d
     simp at hq0
     exact ⟨p0, rfl, by rw [h1, ← hq0], by rw [h2, ← hq0], h3⟩
 
-/-- coordinates: on an ephemeris that has not been interpolated yet, the value is the interpolation of the
-*current* coordinates of the points -/
-theorem interpolate_uses_current_coordinates_partial (e : Eph) (date : ℝ) (hc : e.cache = none) (pt : Pt)
-    (h : (e.interpolate date).1 = .ok pt) :
+/-- invariant of the cached interpolator: it does not exist yet, or its ordinates are the coordinates of the
+current points -/
+def Fresh (e : Eph) : Prop := e.cache = none ∨ e.cache = some (e.pts.map (·.coord))
+
+/-- what can be done to an ephemeris between two interpolations -/
+inductive EphOp where
+  | interpolate (date : ℝ)
+  | convert (conv : Pt → Pt)
+
+noncomputable def ephStep (e : Eph) : EphOp → Eph
+  | .interpolate d => (e.interpolate d).2
+  | .convert c => e.convert c
+
+theorem fresh_new (pts : List Pt) (m : Option Method) (o : Option Int) : Fresh (Eph.new pts m o) := Or.inl rfl
+
+theorem interpolate_state (e : Eph) (d : ℝ) :
+    (e.interpolate d).2 = { e with cache := some (e.cache.getD (e.pts.map (·.coord))) } := by
+  unfold Eph.interpolate; simp only; split <;> [skip; split] <;> rfl
+
+theorem fresh_step (e : Eph) (op : EphOp) (h : Fresh e) : Fresh (ephStep e op) := by
+  cases op with
+  | interpolate d =>
+    simp only [ephStep, interpolate_state]
+    rcases h with h | h <;> right <;> simp [h]
+  | convert c =>
+    simp only [ephStep, Eph.convert]
+    rcases h with h | h
+    · left; simp [h]
+    · right; simp [h]
+
+/-- every state reachable from the constructor by interpolations and frame/form changes is fresh -/
+theorem fresh_reachable (pts : List Pt) (m : Option Method) (o : Option Int) (ops : List EphOp) :
+    Fresh (ops.foldl ephStep (Eph.new pts m o)) := by
+  suffices ∀ e : Eph, Fresh e → Fresh (ops.foldl ephStep e) from this _ (fresh_new pts m o)
+  induction ops with
+  | nil => intro e h; exact h
+  | cons op rest ih => intro e h; exact ih _ (fresh_step e op h)
+
+theorem interpolate_fresh (e : Eph) (date : ℝ) (hc : Fresh e) (pt : Pt) (h : (e.interpolate date).1 = .ok pt) :
     interp e.method (some e.order) (e.pts.map (·.mjd)) (e.pts.map (·.coord)) date = .ok pt.coord := by
+  have hys : e.cache.getD (e.pts.map (·.coord)) = e.pts.map (·.coord) := by rcases hc with hc | hc <;> simp [hc]
   unfold Eph.interpolate at h
-  simp only [hc, Option.getD_none] at h
+  simp only [hys] at h
   split at h
   · simp at h
   · rename_i v hv
@@ -461,6 +498,17 @@ theorem interpolate_uses_current_coordinates_partial (e : Eph) (date : ℝ) (hc 
     · simp only [Except.ok.injEq] at h
       subst h
       exact hv
+
+/-- **The coordinates of an interpolated point are always interpolated from the current coordinates of the
+points** — whatever sequence of interpolations and frame/form changes the ephemeris has gone through since its
+construction (so they are expressed in the frame/form the point is labelled with). -/
+theorem interpolate_uses_current_coordinates (pts : List Pt) (m : Option Method) (o : Option Int) (ops : List EphOp)
+    (date : ℝ) (pt : Pt)
+    (h : ((ops.foldl ephStep (Eph.new pts m o)).interpolate date).1 = .ok pt) :
+    interp (ops.foldl ephStep (Eph.new pts m o)).method (some (ops.foldl ephStep (Eph.new pts m o)).order)
+      ((ops.foldl ephStep (Eph.new pts m o)).pts.map (·.mjd))
+      ((ops.foldl ephStep (Eph.new pts m o)).pts.map (·.coord)) date = .ok pt.coord :=
+  interpolate_fresh _ date (fresh_reachable pts m o ops) pt h
 
 /-! ## non-vacuity: the hypotheses are met by concrete tables -/
 
